@@ -21,9 +21,10 @@ type MCall struct {
 
 // MBeh is the behaviour of one execution of the callback.
 type MBeh struct {
-	LatNs int64 `json:"lat_ns,omitempty"` // simulated latency (callback_slow); 0 = returns at once
-	Err   bool  `json:"err,omitempty"`    // returns an error (callback_error)
-	Nest  int   `json:"nest,omitempty"`   // >0: before returning, the function itself calls Memoize for key Nest-1 (a nested computation; always a higher-numbered key, so there is no cycle)
+	LatNs   int64 `json:"lat_ns,omitempty"`   // simulated latency (callback_slow); 0 = returns at once
+	Err     bool  `json:"err,omitempty"`      // returns an error (callback_error)
+	ErrItem bool  `json:"err_item,omitempty"` // with Err: the function returns a non-nil (partial) item together with the error
+	Nest    int   `json:"nest,omitempty"`     // >0: before returning, the function itself calls Memoize for key Nest-1 (a nested computation; always a higher-numbered key, so there is no cycle)
 }
 
 // MemoWork is a C17 workload.
@@ -243,6 +244,10 @@ func (w *MemoWork) Exec(x *Exec) {
 						}
 						sh.leave(id, simrt.Stamp(), x.S.Now(), b.Err)
 						if b.Err {
+							if b.ErrItem {
+								// an error result is an error result, whatever comes with it: it must not be cached
+								return items[id], fmt.Errorf("exec-%d", id)
+							}
 							return nil, fmt.Errorf("exec-%d", id)
 						}
 						return items[id], nil
@@ -367,8 +372,10 @@ func (w *MemoWork) Post(out *RunOut) {
 				fail("error-cached", "caller%d#%d received the error of execution %d; the call that ran it (caller%d#%d) had already returned (seq %d) before this call began (seq %d): an error result was served later", c.Task, c.Idx, id, l.Task, l.Idx, l.Ret, c.Inv)
 				return
 			}
-			if c.Val != -1 {
-				fail("error-with-value", "caller%d#%d received both an error and a value", c.Task, c.Idx)
+			// what comes with the error is the failing execution's own business (the function may
+			// return a partial item together with its error); it must at least be that execution's
+			if c.Val != -1 && c.Val != 1000+id {
+				fail("error-with-foreign-value", "caller%d#%d received the error of execution %d together with value %d, which that execution did not produce", c.Task, c.Idx, id, c.Val)
 				return
 			}
 			if e.Task != c.Task {
@@ -387,7 +394,7 @@ func (w *MemoWork) Post(out *RunOut) {
 			return
 		}
 		if e.Err {
-			fail("foreign-value", "caller%d#%d received a value attributed to execution %d, which returned an error", c.Task, c.Idx, id)
+			fail("error-result-served-as-value", "caller%d#%d received, with no error, the item of execution %d, which returned an error: an error result was cached or handed out as a success", c.Task, c.Idx, id)
 			return
 		}
 		if !(e.StartSeq < c.Ret) {
@@ -508,7 +515,9 @@ func genC17(r *simrt.Rand, tier string, idx uint64) Workload {
 		n := 1 + r.Intn(3)
 		var l []MBeh
 		for i := 0; i < n; i++ {
-			l = append(l, MBeh{LatNs: lats[r.Intn(len(lats))], Err: r.Bool(0.25)})
+			b := MBeh{LatNs: lats[r.Intn(len(lats))], Err: r.Bool(0.25)}
+			b.ErrItem = b.Err && r.Bool(0.3)
+			l = append(l, b)
 		}
 		w.Beh = append(w.Beh, l)
 	}
